@@ -55,7 +55,8 @@ theorem dim1 (width r dx nx : Int) (hdx : 0 ≤ dx ∧ dx < 12) :
       have : (nx - dx - r) % W + dx + r - nx = (nx - dx - r) % W - (nx - dx - r) := by omega
       rw [this, Int.sub_emod, Int.emod_emod, Int.sub_self, Int.zero_emod]
 
-theorem ethTriple_eq : ethTriple = [(0, 0), (4, 8), (8, 4)] := by decide
+/-- order-insensitive: a reordering of the literal in the source does not matter -/
+theorem ethTriple_perm : ethTriple.Perm [(0, 0), (4, 8), (8, 4)] := by decide
 
 theorem ethCoords_mem_aux (width height rx ry : Int) (p : Pt) :
     p ∈ ethCoords width height rx ry ↔
@@ -85,7 +86,8 @@ theorem ethCoords_mem_aux (width height rx ry : Int) (p : Pt) :
 theorem eth_coords_mem' (width height rx ry : Int) (p : Pt) :
     p ∈ ethCoords width height rx ry ↔
       0 ≤ p.1 ∧ p.1 < width ∧ 0 ≤ p.2 ∧ p.2 < height ∧ IsEthAt (rx, ry) p := by
-  rw [ethCoords_mem_aux, ethTriple_eq]
+  rw [ethCoords_mem_aux]
+  simp only [ethTriple_perm.mem_iff]
   have hr : pymod (pymod rx 12) 12 = rx % 12 := by
     rw [pymod_pos _ (by omega), pymod_pos _ (by omega)]; omega
   simp only [List.mem_cons, List.not_mem_nil, or_false, exists_eq_or_imp, exists_eq_left, hr]
@@ -134,7 +136,7 @@ theorem eth_coords_nodup' (width height rx ry : Int) : (ethCoords width height r
     rw [List.nodup_flatMap]
     constructor
     · intro y hy
-      rw [List.Nodup, List.pairwise_filterMap, ethTriple_eq]
+      rw [(ethTriple_perm.filterMap _).nodup_iff, List.Nodup, List.pairwise_filterMap]
       have key : ∀ a a' : Int, (0 ≤ a ∧ a < 12) → (0 ≤ a' ∧ a' < 12) → a ≠ a' →
           pymod (x + a + r) W ≠ pymod (x + a' + r) W := by
         intro a a' h1 h2 hne he
@@ -155,7 +157,7 @@ theorem eth_coords_nodup' (width height rx ry : Int) : (ethCoords width height r
       rw [List.mem_filterMap] at hp hp'
       obtain ⟨d, hd, h⟩ := hp
       obtain ⟨d', hd', h'⟩ := hp'
-      rw [ethTriple_eq] at hd hd'
+      rw [ethTriple_perm.mem_iff] at hd hd'
       split at h <;> split at h' <;> simp only [Option.some.injEq, reduceCtorEq] at h h'
       subst h
       simp only [Prod.mk.injEq] at h'
@@ -176,7 +178,7 @@ theorem eth_coords_nodup' (width height rx ry : Int) : (ethCoords width height r
     rw [List.mem_filterMap] at hp hp'
     obtain ⟨d, hd, h⟩ := hp
     obtain ⟨d', hd', h'⟩ := hp'
-    rw [ethTriple_eq] at hd hd'
+    rw [ethTriple_perm.mem_iff] at hd hd'
     split at h <;> split at h' <;> simp only [Option.some.injEq, reduceCtorEq] at h h'
     subst h
     simp only [Prod.mk.injEq] at h'
